@@ -744,6 +744,55 @@ def cmp8(p, res):
     res.floor("CMP-8", "decompression traits", n, 11)
 
 
+def cmp9(p, res):
+    """every routine that hands `cols = X.rank() + 1` columns and a secret to `glwe_encrypt_sk_internal` compares a rank of X with the rank of that secret: the kernel indexes the
+    secret's columns 0 .. cols - 2 and never looks at its rank, so a secret of larger rank is accepted silently (the result is not an encryption under the key that was passed).
+    The compressed entry has to refuse what its standard sibling refuses."""
+    from .rad import _deep_atoms
+    n = 0
+    for f in sorted(p.lib_fns(), key=lambda x: x.uid):
+        if f.is_test() or not f.blocks or "test_suite" in f.uid:
+            continue
+        cs = [(bi, t) for bi, t in f.calls() if (f.callee_def(t) or {}).get("n") == "glwe_encrypt_sk_internal" and len(t["a"]) >= 7]
+        if not cs:
+            continue
+        flow = Flow(f, transparent=("to_ref", "to_mut", "deref", "borrow", "as_ref", "into", "from", "clone"))
+        sym = Sym(f, Flow(f))
+        cmps = []
+        for blk in f.blocks:
+            for s in blk["s"]:
+                if s[0] == "A" and s[2]["k"] == "Bin" and s[2]["op"] in ("Eq", "Ne"):
+                    cmps.append([sym.operand(o) for o in s[2]["o"]])
+            t = blk["t"]
+            if t and t["k"] == "Call" and (f.callee_def(t) or {}).get("n") in ("eq", "ne") and len(t["a"]) == 2:
+                cmps.append([sym.operand(o) for o in t["a"]])
+
+        def rank_params(pl):
+            out = set()
+            for a in _deep_atoms(pl):
+                if a[0] == "f" and a[1] in ("rank", "rank_out", "rank_in") and len(a[2]) == 1:
+                    for b in _deep_atoms(Poly(dict(a[2][0]))):
+                        if b[0] == "p":
+                            out.add(b[1])
+            return out
+        for bi, t in cs:
+            n += 1
+            cols = rank_params(sym.operand(t["a"][3]))
+            sk = {r[1] for r in flow.op_roots(t["a"][6]) if r[0] == "param"}
+            if len(cols) != 1 or len(sk) != 1:
+                res.undec("CMP-9", "%s: column count / secret of the kernel call not traced to parameters" % f.pretty)
+                continue
+            x, y = sorted(cols)[0], sorted(sk)[0]
+            ok = any((x in rank_params(a) and y in rank_params(b)) or (y in rank_params(a) and x in rank_params(b)) for a, b in cmps)
+            pn = f.param_names()
+            if ok:
+                res.ok("CMP-9", {"fn": f.pretty, "receiver": pn.get(x), "secret": pn.get(y)})
+            else:
+                res.bad("CMP-9", f.pretty, "rank-of-secret-not-compared", "%s encrypts `%s.rank() + 1` columns under `%s` without comparing the two ranks: a secret of larger rank is accepted and only its "
+                        "first columns are used, where every sibling routine (standard and compressed) refuses the call" % (f.pretty, pn.get(x), pn.get(y)), site=f.where(t["l"]))
+    return n
+
+
 def run(res, tier):
     res.level = "other"
     res.explanation = ("Structural agreement of compressor, expander and standard encryption decided on MIR: same kernel with the compressed flag constant; the seed stored for a cell "
@@ -758,6 +807,7 @@ def run(res, tier):
     res.rule("CMP-5", "vec_znx_add_scalar_assign limb/column polynomials, normalisation calls and clearing of the row plaintext (primitive and loop depth) agree between standard and compressed matrix encryptors")
     res.rule("CMP-6", "each infos accessor of a compressed layout delegates to the same accessor of the wrapped object, reads data dimensions, or has the standard sibling's shape")
     res.rule("CMP-7", "matrix expanders compare res.dsize() with other.dsize() before expanding cells")
+    res.rule("CMP-9", "every caller of glwe_encrypt_sk_internal compares the rank its column count comes from with the rank of the secret it passes")
     res.rule("CMP-8", "every *Decompress trait of poulpy_core::layouts::compressed has an impl for Module<B>")
     res.assumptions = ["kernel arithmetic (C01) and cross-backend bits (C10) are not decided here", "accessor atoms are compared by name (one compressed object in scope)"]
     cfgs = ["avx-dev"] if tier == "quick" else ["avx-dev", "ref-dev"]
@@ -773,6 +823,8 @@ def run(res, tier):
         cmp6(p, res)
         cmp7(p, res)
         cmp8(p, res)
+        n9 = cmp9(p, res)
+        res.floor("CMP-9", "callers of the encryption kernel", n9, 5)
         # compression followed by serialisation and deserialisation: compressed layouts restore every serialised field (seeds included)
         from . import c18
         rd, wr = c18.readers_writers(p)
